@@ -376,15 +376,46 @@ func cmdCheck(args []string) int {
 	exit := 0
 	reported := 0
 	knownHits := map[int]bool{}
+	// at most 3 violations per check id and 12 in total are re-verified (in parallel) and reported;
+	// the rest are counted
+	perCheck := map[string]int{}
+	var chosen []violation
+	skipped := 0
 	for _, v := range viols {
-		ok, detail := replayOnce(bin, v.Replay)
-		for try := 0; !ok && isRace && try < 4; try++ {
-			// the race detector's shadow memory is bounded and its eviction is not seeded: a report can be
-			// missed on an identical execution, so a race violation gets a few fresh processes to recur
-			ok, detail = replayOnce(bin, v.Replay)
+		if perCheck[v.Check] >= 3 || len(chosen) >= 12 {
+			skipped++
+			continue
 		}
-		if !ok {
-			infra = append(infra, fmt.Sprintf("violation %s of run %d did not replay identically in a fresh process: %s", v.Check, v.RunIndex, detail))
+		perCheck[v.Check]++
+		chosen = append(chosen, v)
+	}
+	type rv struct {
+		ok     bool
+		detail string
+	}
+	results := make([]rv, len(chosen))
+	var rwg sync.WaitGroup
+	sem := make(chan struct{}, 8)
+	for i, v := range chosen {
+		i, v := i, v
+		rwg.Add(1)
+		go func() {
+			defer rwg.Done()
+			sem <- struct{}{}
+			defer func() { <-sem }()
+			ok, detail := replayOnce(bin, v.Replay)
+			for try := 0; !ok && isRace && try < 4; try++ {
+				// the race detector's shadow memory is bounded and its eviction is not seeded: a report can be
+				// missed on an identical execution, so a race violation gets a few fresh processes to recur
+				ok, detail = replayOnce(bin, v.Replay)
+			}
+			results[i] = rv{ok, detail}
+		}()
+	}
+	rwg.Wait()
+	for i, v := range chosen {
+		if !results[i].ok {
+			infra = append(infra, fmt.Sprintf("violation %s of run %d did not replay identically in a fresh process: %s", v.Check, v.RunIndex, results[i].detail))
 			continue
 		}
 		matched := false
@@ -406,6 +437,9 @@ func cmdCheck(args []string) int {
 		exit = 1
 		fmt.Printf("VIOLATION property=%s replay=%s\n", *prop, v.Replay)
 		fmt.Printf("  check=%s harness=%s run_index=%d\n  %s\n", v.Check, v.Harness, v.RunIndex, strings.ReplaceAll(firstLines(v.Msg, 14), "\n", "\n  "))
+	}
+	if skipped > 0 {
+		fmt.Printf("bbsim: %d further violating runs were found (replay files written) but not re-verified individually\n", skipped)
 	}
 	wall := time.Since(start).Seconds()
 	if len(infra) > 0 {
